@@ -117,6 +117,10 @@ func runC08(w *World) {
 		must(os.WriteFile(filepath.Join(w.FileRoot, f.name), f.data, 0644))
 		if f.hasInfo {
 			f.comment = "comment for " + f.name[:min(len(f.name), 20)]
+			// comment lengths around the buffer sizes a header passes through (io.ReadAll's 512, io.Copy's 32 KiB)
+			if cl := []int{-1, -1, 0, 383, 600, 5000, 33000, 60000}[op.N[1]%8]; cl >= 0 {
+				f.comment = randText(rand.New(rand.NewSource(int64(op.N[1]))), cl)
+			}
 			info := rp.InfoFork{Platform: "AMAC", Type: "TEXT", Creator: "ttxt", Name: []byte(f.name), Comment: []byte(f.comment)}
 			must(os.WriteFile(filepath.Join(w.FileRoot, ".info_"+f.name), info.Encode(), 0644))
 		}
